@@ -91,6 +91,32 @@ type devBatch struct {
 	// SlowUs microseconds per message: back-pressure on the MIDI output, as a slow port gives
 	OutCap int `json:"outcap"`
 	SlowUs int `json:"slow_us"`
+	// Prefill: before every event (and before the disconnect) the harness fills that channel up with marker messages of its
+	// own - the traffic of the other devices, which write into the same channel in the application - so that the FIRST
+	// message of the step meets a full channel too.  Markers are discarded on the reading side.
+	Prefill bool `json:"prefill"`
+	// SharedOut > 0 (isolation runs only): all devices of the batch write into ONE output channel of that capacity, read
+	// by one slow reader - the application's arrangement (8 slots, one relay goroutine); every device plays on a MIDI
+	// channel of its own, by which the common stream is told apart again
+	SharedOut int `json:"shared_out"`
+}
+
+// marker is the harness's own filler message (Active Sensing: no device ever sends it)
+var marker = midi.Event{0xFE}
+
+func isMarker(m midi.Event) bool { return len(m) == 1 && m[0] == 0xFE }
+
+func (r *devRun) fill() {
+	if r.small == nil || !r.prefill {
+		return
+	}
+	for {
+		select {
+		case r.small <- marker:
+		default:
+			return
+		}
+	}
 }
 
 func keyCode(name string) (evdev.EvCode, error) {
@@ -239,6 +265,7 @@ type devRun struct {
 	small   chan midi.Event // tight output: what the device writes into (nil = it writes into out)
 	slow    time.Duration
 	pending []midi.Event
+	prefill bool
 }
 
 // tightOutput makes the device write into a small channel that nobody reads while an event is being handled: the
@@ -256,6 +283,11 @@ func newDevRun(conf config.Config, axinfo map[string]absInfo, sub string) (*devR
 }
 
 func newDevRunOut(conf config.Config, axinfo map[string]absInfo, sub string, outcap, slowUs int) (*devRun, error) {
+	return newDevRunInto(conf, axinfo, sub, outcap, slowUs, nil)
+}
+
+// newDevRunInto: shared != nil makes the device write into that channel (somebody else reads it)
+func newDevRunInto(conf config.Config, axinfo map[string]absInfo, sub string, outcap, slowUs int, shared chan midi.Event) (*devRun, error) {
 	r := &devRun{
 		in:   make(chan *input.InputEvent),
 		out:  make(chan midi.Event, 8192),
@@ -280,6 +312,9 @@ func newDevRunOut(conf config.Config, axinfo map[string]absInfo, sub string, out
 	devOut := r.out
 	if outcap > 0 {
 		devOut = r.tightOutput(outcap, time.Duration(slowUs)*time.Microsecond)
+	}
+	if shared != nil {
+		devOut = shared
 	}
 	d := device.NewDevice(idev, config.DeviceConfig{ConfigFile: "verif", ConfigType: "user", Config: conf},
 		devOut, nil, true, 0, r.sigs)
@@ -313,7 +348,9 @@ func (r *devRun) send(ev *input.InputEvent) string {
 			case <-time.After(r.slow):
 				select {
 				case m := <-r.small:
-					r.pending = append(r.pending, m)
+					if !isMarker(m) {
+						r.pending = append(r.pending, m)
+					}
 				default:
 				}
 				if time.Now().After(deadline) {
@@ -345,36 +382,39 @@ func (r *devRun) event(t evdev.EvType, code evdev.EvCode, val int32) *input.Inpu
 
 func (r *devRun) drain() ([][]int, int) {
 	o := [][]int{}
+	add := func(m midi.Event) {
+		if isMarker(m) {
+			return
+		}
+		b := make([]int, len(m))
+		for i, x := range m {
+			b[i] = int(x)
+		}
+		o = append(o, b)
+	}
+	// order of emission: what send() took while it waited, what the mover goroutine of a disconnect step carried over,
+	// what still sits in the tight channel
+	for _, m := range r.pending {
+		add(m)
+	}
+	r.pending = nil
+	for more := true; more; {
+		select {
+		case m := <-r.out:
+			add(m)
+		default:
+			more = false
+		}
+	}
 	if r.small != nil {
 		for more := true; more; {
 			select {
 			case m := <-r.small:
-				r.pending = append(r.pending, m)
+				add(m)
 			default:
 				more = false
 			}
 		}
-		for _, m := range r.pending {
-			b := make([]int, len(m))
-			for i, x := range m {
-				b[i] = int(x)
-			}
-			o = append(o, b)
-		}
-		r.pending = nil
-	}
-	for {
-		select {
-		case m := <-r.out:
-			b := make([]int, len(m))
-			for i, x := range m {
-				b[i] = int(x)
-			}
-			o = append(o, b)
-			continue
-		default:
-		}
-		break
 	}
 	sg := 0
 	for {
@@ -434,28 +474,36 @@ func (r *devRun) step(in devInput) (stepOut, bool) {
 		}
 	case "disconnect":
 		stop := make(chan struct{})
-		defer close(stop)
-		r.unblock(stop)
-		close(r.in)
+		var exited <-chan struct{}
+		if r.small != nil && r.prefill {
+			// the clean-up meets a full channel; nobody reads it for a moment (a device that must deliver its Note Offs waits)
+			r.fill()
+			close(r.in)
+			time.Sleep(3 * time.Millisecond)
+			exited = r.unblock(stop)
+		} else {
+			exited = r.unblock(stop)
+			close(r.in)
+		}
 		select {
 		case msg := <-r.done:
 			r.done <- msg
 			if msg != "" {
 				res.Ev, res.Msg = "crash", msg
-				res.O, res.Sg = r.drain()
-				return res, false
 			}
 		case <-time.After(stepTimeout):
 			res.Ev, res.Msg = "hang", "ProcessEvents did not return within 5s of its input being closed"
-			res.O, res.Sg = r.drain()
-			return res, false
 		}
+		// the mover goroutine has handed over whatever it held before the output is read
+		close(stop)
+		<-exited
 		res.O, res.Sg = r.drain()
 		return res, false
 	default:
 		res.Ev, res.Msg = "harness-error", "unknown input "+in.Ev
 		return res, false
 	}
+	r.fill()
 	for i, e := range []*input.InputEvent{ev, r.event(evdev.EV_SYN, 0, 0)} {
 		if msg := r.send(e); msg != "" {
 			_ = i
@@ -475,11 +523,14 @@ func (r *devRun) step(in devInput) (stepOut, bool) {
 }
 
 // unblock lets a device that writes into the tight output channel run to its end (nobody reads that channel otherwise)
-func (r *devRun) unblock(stop <-chan struct{}) {
+func (r *devRun) unblock(stop <-chan struct{}) <-chan struct{} {
+	exited := make(chan struct{})
 	if r.small == nil {
-		return
+		close(exited)
+		return exited
 	}
 	go func() {
+		defer close(exited)
 		for {
 			select {
 			case m := <-r.small:
@@ -489,6 +540,7 @@ func (r *devRun) unblock(stop <-chan struct{}) {
 			}
 		}
 	}()
+	return exited
 }
 
 func (r *devRun) finish() {
@@ -563,6 +615,7 @@ func cmdDevice(args []string) error {
 			if err != nil {
 				return err
 			}
+			r.prefill = b.Prefill
 			start := stepOut{Ev: "start", C: bi + 1, O: [][]int{}, St: r.state()}
 			if err := enc.Encode(start); err != nil {
 				return err
